@@ -291,14 +291,15 @@ Fixpoint check_x (fuel : nat) (sc : scopes) (e : lenv) (x : sx) {struct fuel} : 
         obind (cx y) (fun yi => obind (rt yi) (fun yt =>
         let plant := fun (f : value) => Ok (IBin FunctionCall (IVar f) (ITuple [yi])) in
         let never := ty_eqb yt TNever in
+        let noelem := match iter_element yt with Some _ => false | None => true end in
         match op with
-        | USum => if negb never && matches yt ACC_SUM then Ok (IUn USum yi) else reject
-        | UProduct => if negb never && matches yt ACC_PRODUCT then Ok (IUn UProduct yi) else reject
+        | USum => if negb noelem && matches yt ACC_SUM then Ok (IUn USum yi) else reject
+        | UProduct => if negb noelem && matches yt ACC_PRODUCT then Ok (IUn UProduct yi) else reject
         | UAll => if matches yt (TFun [] (TTup [TBool; TBool])) then plant (r_all red) else reject
         | UAny => if matches yt (TFun [] (TTup [TBool; TBool])) then plant (r_any red) else reject
         | UBitAnd => if matches yt (TFun [] (TTup [TBool; TInt])) then plant (r_and red) else reject
         | UBitOr => if matches yt (TFun [] (TTup [TBool; TInt])) then plant (r_or red) else reject
-        | UCollect => if negb never && matches yt ITERATOR_TYPE then Ok (IUn UCollect yi) else reject
+        | UCollect => if negb noelem && matches yt ITERATOR_TYPE then Ok (IUn UCollect yi) else reject
         | UIter => if negb never && matches yt (TArr TAny) then Ok (IUn UIter yi) else reject
         | _ => Panic
         end))
